@@ -371,6 +371,25 @@ func (c *FuncCtx) checkFrame(st *State, env map[string]*Val) {
 			continue
 		}
 		for _, ex := range cl.Assigns {
+			if g, ok := ex.(*ast.CallExpr); ok {
+				if gid, ok := g.Fun.(*ast.Ident); ok && c.eng.isGhost(gid.Name) {
+					saved := st.bound
+					nb := map[string]*Val{"$spec": {S: "1"}, "$pos": {S: strconv.Itoa(int(c.decl.Body.Rbrace))}}
+					for k, v := range env {
+						nb[k] = v
+					}
+					st.bound = nb
+					pt, _ := c.ghostSorts(gid.Name)
+					idx := c.coerce(st, c.evalOld(st, g.Args[0]), pt)
+					st.bound = saved
+					cells[ghostKey(gid.Name)] = append(cells[ghostKey(gid.Name)], idx.S)
+					continue
+				}
+			}
+			if gid, ok := ex.(*ast.Ident); ok && c.eng.isGhost(gid.Name) {
+				whole[ghostKey(gid.Name)] = true
+				continue
+			}
 			sel, ok := ex.(*ast.SelectorExpr)
 			if !ok {
 				limitf("assigns clause must list field locations")
@@ -402,21 +421,27 @@ func (c *FuncCtx) checkFrame(st *State, env map[string]*Val) {
 			continue
 		}
 		cur := st.heap[k]
-		parts := strings.SplitN(k, ".", 2)
-		entry := fmt.Sprintf("H_%s_%s", parts[0], parts[1])
+		entry := entryTermFor(k)
 		if cur == entry || whole[k] {
 			continue
 		}
 		r := c.bvar("r")
+		rsort := "Int"
+		if strings.HasPrefix(k, "ghost.") {
+			pt, _ := c.ghostSorts(strings.TrimPrefix(k, "ghost."))
+			rsort = c.eng.sortOf(pt)
+		}
 		var excl []string
 		for _, ref := range cells[k] {
 			excl = append(excl, mkEq(r, ref))
 		}
 		// objects allocated by this call are not part of the caller's frame
-		for _, ref := range st.allocs {
-			excl = append(excl, mkEq(r, ref))
+		if rsort == "Int" && !strings.HasPrefix(k, "ghost.") {
+			for _, ref := range st.allocs {
+				excl = append(excl, mkEq(r, ref))
+			}
 		}
-		goal := fmt.Sprintf("(forall ((%s Int)) %s)", r, mkImplies(mkNot(mkOr(excl...)), mkEq(mkSel(cur, r), mkSel(entry, r))))
+		goal := fmt.Sprintf("(forall ((%s %s)) %s)", r, rsort, mkImplies(mkNot(mkOr(excl...)), mkEq(mkSel(cur, r), mkSel(entry, r))))
 		c.oblige(st, "frame", "frame."+k, c.decl.Body.Rbrace, goal, nil, "only the declared locations of "+k+" change")
 	}
 }
